@@ -152,6 +152,14 @@ func c06MultiscalarOps() []h.DiffOp {
 				m := c06MsmArgs(a, o, false)
 				c06PtOut(o, "ct", NewEdwardsPoint().MultiscalarMul(m.scalars, m.ed))
 				c06PtOut(o, "vartime", NewEdwardsPoint().MultiscalarMulVartime(m.scalars, m.ed))
+				if n := len(m.ed); n > 0 {
+					// receiver is one of the input points
+					al := append([]*EdwardsPoint(nil), m.ed...)
+					al[n/2] = NewEdwardsPoint().Set(m.ed[n/2])
+					c06PtOut(o, "ct.alias", al[n/2].MultiscalarMul(m.scalars, al))
+					al[n/2] = NewEdwardsPoint().Set(m.ed[n/2])
+					c06PtOut(o, "vartime.alias", al[n/2].MultiscalarMulVartime(m.scalars, al))
+				}
 			}},
 		{Name: "ed.msm.expanded", Weight: 5,
 			Covers: []string{"EdwardsPoint.ExpandedMultiscalarMulVartime", "NewExpandedEdwardsPoint"},
